@@ -1088,3 +1088,8 @@ fn blind<CS: CipherSuite, R: RngCore + CryptoRng>(
 
     Ok(result)
 }
+
+// verification hook (guard: cfg(kani) / --cfg opaque_ke_verif); inert in every ordinary build
+#[cfg(any(kani, opaque_ke_verif))]
+#[path = "/verif/harness/incrate/child_opaque.rs"]
+pub(crate) mod verif_kani_opaque;
